@@ -2,6 +2,7 @@ package rules
 
 import (
 	"fmt"
+	"go/types"
 	"strings"
 
 	"golang.org/x/tools/go/ssa"
@@ -75,6 +76,64 @@ func runC04(p *core.Prog, r *core.Report, tier string) {
 		}
 	}
 	r.Floor("C04.e committee size stores", nE, 1)
+
+	// (g) the duty's own arrays are never written: nothing appends to, or stores through, a slice obtained from a
+	// Duty accessor (a filter built "in place" on duty.ValidatorIndices()[:0] shifts the duty's list under the
+	// code that later pairs validators with their committee positions)
+	fromDuty := func(v ssa.Value) (string, bool) {
+		for i := 0; i < 6; i++ {
+			switch x := v.(type) {
+			case *ssa.Slice:
+				v = x.X
+				continue
+			case *ssa.Phi:
+				for _, e := range x.Edges {
+					if _, isSl := e.(*ssa.Slice); isSl {
+						v = e
+					}
+				}
+				if v == ssa.Value(x) {
+					return "", false
+				}
+				continue
+			case *ssa.Call:
+				c := x.Common()
+				var recv types.Type
+				if c.IsInvoke() {
+					recv = c.Value.Type()
+				} else if f := c.StaticCallee(); f != nil && f.Signature.Recv() != nil {
+					recv = f.Signature.Recv().Type()
+				}
+				if recv != nil && strings.HasSuffix(typeName(recv), "attester.Duty") {
+					return core.MethodName(c), true
+				}
+			}
+			break
+		}
+		return "", false
+	}
+	nG := 0
+	for _, f := range p.FuncsIn(attRel) {
+		core.EachInstr(f, func(in ssa.Instruction) {
+			switch x := in.(type) {
+			case *ssa.Call:
+				if b, ok := x.Call.Value.(*ssa.Builtin); ok && b.Name() == "append" && len(x.Call.Args) > 0 {
+					nG++
+					if acc, bad := fromDuty(x.Call.Args[0]); bad {
+						r.Violate("C04.g", core.FnKey(f)+"|append-into-duty-array|"+acc, p.Pos(x.Pos()), "a slice of the duty's own "+acc+"() array is appended to: the duty's list is overwritten in place, and validators are then paired with another validator's committee index and position")
+					}
+				}
+			case *ssa.Store:
+				if ia, ok := x.Addr.(*ssa.IndexAddr); ok {
+					if acc, bad := fromDuty(ia.X); bad {
+						r.Violate("C04.g", core.FnKey(f)+"|store-into-duty-array|"+acc, p.Pos(x.Pos()), "an element of the duty's own "+acc+"() array is overwritten")
+					}
+				}
+			}
+		})
+	}
+	r.Hold("C04.g", "duty-arrays-read-only", "", fmt.Sprintf("%d appends examined in the attester: none grows a slice of a duty array, and no element of a duty array is stored to", nG))
+	r.Floor("C04.g appends examined", nG, 4)
 
 	// (f) what is signed is what is submitted: the sign call and the constructor call in the same function share argument values
 	for _, f := range p.FuncsIn(attRel) {
